@@ -108,9 +108,8 @@ def make_ops(rng, doc, scratch):
                 import warnings
                 with warnings.catch_warnings():
                     warnings.simplefilter('ignore')
-                    r = kp.export(d, o)
-                return (r, o == o0)
-            return ('export(doc, ExportOptions) [deprecated API, options object compared]', g, None)
+                    return kp.export(d, o)
+            return ('export(doc, ExportOptions) [deprecated API, options object compared]', g, ({'options': o}, {'options': o0}))
         if w == 'clone_export':
             return ('dumps(doc.clone())', lambda d: kp.dumps(d.clone()), None)
         if w == 'match_self':
